@@ -86,7 +86,24 @@ class _Ev:
             inner = fn.strip(nd["ch"][0])
             if fn.nodes[inner]["k"] == "Un" and fn.nodes[inner]["op"] == "&":
                 return self.lv(p, fn.nodes[inner]["ch"][0])
-            return "*%s" % _wrap(lin.p_str(self.ev(p, nd["ch"][0])))
+            # *(ptr + i) is ptr[i]
+            v = self.ev(p, nd["ch"][0])
+            if len(v) > 1:
+                base = None
+                if fn.nodes[inner]["k"] == "Bin" and fn.nodes[inner]["op"] in ("+", "-"):
+                    a, b = fn.nodes[inner]["ch"]
+                    pa = "*" in fn.nodes[a].get("ct", fn.nodes[a].get("t", "")) or "[" in fn.nodes[a].get("t", "")
+                    base = self.ev(p, a if pa else b)
+                    if not (len(base) == 1 and list(base.values()) == [1]):
+                        base = None
+                if base is None:
+                    # `*p++` and the like: the pointer is the plain variable / path among the terms
+                    cands = [m for m in v if len(m) == 1 and v[m] == 1 and "(" not in m[0] and not m[0].lstrip("-").isdigit()]
+                    if len(cands) == 1:
+                        base = {cands[0]: 1}
+                if base is not None:
+                    return "%s[%s]" % (_wrap(lin.p_str(base)), lin.p_str(lin.p_add(v, base, -1)))
+            return "*%s" % _wrap(lin.p_str(v))
         if k in ("Cast", "Paren", "ICast"):
             return self.lv(p, nd["ch"][0])
         return lin.p_str(self.ev(p, j))
